@@ -12,6 +12,7 @@ RNTABLE = [
     117, 114, 4, 90, 43, 52, 53, 113, 120, 72, 16, 49, 7, 79, 119, 61, 22, 84, 9, 97,
     91, 15, 21, 24, 46, 39, 93, 105, 65, 70, 125, 99, 17, 123]
 
+TIMEOUT_MS = dict(quick=300000, thorough=600000)
 META = dict(
     functions=['gsm_shared.HoppingParams.__init__', 'gsm_shared.HoppingParams.resolve', 'gsm_shared.HoppingParams.fn2gsm_time',
                'gsm_shared.HoppingParams.RNTABLE (read at run time, compared with the pinned table)'],
